@@ -99,6 +99,48 @@ EQ_PROGS = [
 ]
 
 
+# ---- C05: select semantics - priority, filters, timeouts, what is left in the mailbox -------------------------
+# (name, source, expected value, minimum wall-clock seconds or None).  Every program is deterministic: messages from one
+# sender arrive in send order, and a later "sync" message makes sure the earlier ones are queued before the select.
+SELECT_PROGS = [
+    ("two finished processes: written order decides", "#{ p1 = @#{ 1 }, p2 = @#{ 2 }, x = !p1, y = !p2, ! [p2, p1] }", "2", None),
+    ("timeout alone yields nil, not before its duration", "#{ x = ! [300], [x] }", "[[]]", 0.3),
+    ("finished process written before an elapsed timeout", "#{ p = @#{ 7 }, x = !p, ! [p, 0] }", "7", None),
+    ("elapsed timeout written before a finished process", "#{ p = @#{ 7 }, x = !p, y = ! [0, p], [y] }", "[[]]", None),
+    ("unfinished process, then the timeout decides", "#{ loop = #'int { | =0 => 0 | [~, 1] __integer_subtract__ ^ }, p = @#{ 2000000 loop }, x = ! [p, 30], [x] }", "[[]]", None),
+    ("a filter takes its message, the others keep their order", "#{ p = @#{ a = ! [#'int { =42 => Ok }], b = !#'int, c = !#'int, [a, b, c] }, 1 p, 42 p, 2 p, !p }", "[42, 1, 2]", None),
+    ("a filter's result is only a verdict", "#{ p = @#{ ! [#'int { =n => [n, 100] __integer_add__ }] }, 5 p, !p }", "5", None),
+    ("a nil verdict skips the message, which stays receivable", "#{ p = @#{ a = ! [#'int { | =1 => [] | =n => Ok }], b = !#'int, [a, b] }, 1 p, 2 p, !p }", "[2, 1]", None),
+    ("elapsed timeout written before a ready receive", "#{ p = @#{ w = !#'bin, a = ! [0, #'int], b = !#'int, [a, b] }, 5 p, 0xaa p, !p }", "[[], 5]", None),
+    ("ready receive written before an elapsed timeout", "#{ p = @#{ w = !#'bin, ! [#'int, 0] }, 5 p, 0xaa p, !p }", "5", None),
+    ("two receive sources: written order, not arrival order", "#{ p = @#{ w = ! [#'int { =99 => Ok }], a = ! [#'int, #'bin], b = ! [#'int, #'bin], [a, b] }, 0xaa p, 5 p, 99 p, !p }", "[5, 0xaa]", None),
+    ("a receive source takes the earliest message of its type", "#{ p = @#{ w = ! [#'int { =99 => Ok }], a = !#'int, b = !#'int, c = !#'bin, [a, b, c] }, 3 p, 0xaa p, 4 p, 99 p, !p }", "[3, 4, 0xaa]", None),
+    ("a filter rejects everything, the timeout decides, the messages stay in order", "#{ p = @#{ w = !#'bin, a = ! [#'int { =n => [] }, 30], b = !#'int, c = !#'int, [a, b, c] }, 1 p, 2 p, 0xaa p, !p }", "[[], 1, 2]", None),
+]
+
+
+def check_select_progs(quiv):
+    import time
+
+    fails = []
+    for name, src, expect, min_s in SELECT_PROGS:
+        t0 = time.time()
+        r = run_prog(quiv, src, timeout=30)
+        dt = time.time() - t0
+        why = None
+        if r.get("timeout"):
+            why = "timed out (lost wake-up, worker panic or hang)"
+        elif r.get("rc") != 0:
+            why = "run failed: " + r.get("stderr", "")[-200:]
+        elif r.get("value") != expect:
+            why = "evaluated to %r, expected %r" % (r.get("value"), expect)
+        elif min_s is not None and dt < min_s:
+            why = "finished after %.3f s, before the timeout's duration of %.1f s" % (dt, min_s)
+        if why:
+            fails.append({"program": name, "source": src, "why": why})
+    return {"runs": len(SELECT_PROGS), "failures": fails}
+
+
 def check_eq_progs(quiv):
     fails = []
     for name, src, expect in EQ_PROGS:
@@ -158,6 +200,8 @@ def search(prop):
         return check_tail_shapes(quiv)
     if prop == "C13":
         return check_eq_progs(quiv)
+    if prop == "C05":
+        return check_select_progs(quiv)
     return check_heap_progs(quiv)
 
 
@@ -165,13 +209,13 @@ _ALL_CACHE = {}
 
 
 def search_all():
-    """Every corpus (heap, equality, tail shapes) once per run: used to decorate a violated VM obligation with a
+    """Every corpus (heap, equality, select, tail shapes) once per run: used to decorate a violated VM obligation with a
     concrete failing program, when there is one."""
     if "r" not in _ALL_CACHE:
         quiv = build_quiv()
         fails = []
         runs = 0
-        for rep in (check_heap_progs(quiv), check_eq_progs(quiv), check_tail_shapes(quiv)):
+        for rep in (check_heap_progs(quiv), check_eq_progs(quiv), check_select_progs(quiv), check_tail_shapes(quiv)):
             fails.extend(rep["failures"])
             runs += rep["runs"]
         _ALL_CACHE["r"] = {"runs": runs, "failures": fails}
